@@ -14,7 +14,11 @@ tier="${2:-${VERIF_TIER:-quick}}"
 explain=""
 if [ "${3:-}" = "--explain" ]; then explain="-explain ${4:-x}"; fi
 if [ ! -x bin/evcheck ] || [ -n "$(find checker -name '*.go' -newer bin/evcheck 2>/dev/null | head -1)" ] || [ checker/go.mod -nt bin/evcheck ]; then
+  # build beside the target and rename, so that checks running in parallel
+  # never execute a half-written binary
   mkdir -p bin
-  (cd checker && go build -o ../bin/evcheck .) || { echo "VIOLATION property=$prop replay=checker-build-failed"; exit 1; }
+  tmp="bin/evcheck.$$.tmp"
+  (cd checker && go build -o "../$tmp" .) || { rm -f "$tmp"; echo "VIOLATION property=$prop replay=checker-build-failed"; exit 1; }
+  mv -f "$tmp" bin/evcheck
 fi
 exec bin/evcheck -prop "$prop" -tier "$tier" -repo "${VERIF_REPO:-/repo}" -verif "$here" $explain
